@@ -291,6 +291,7 @@ pub fn main_with(entries: Vec<GrammarEntry>) {
         "engine_wall_s": t0.elapsed().as_secs_f64(),
         "debug_assertions": cfg!(debug_assertions),
         "groups": cfg.groups,
+        "max_tick_ratio_x100": judge::MAX_TICK_RATIO_X100.load(std::sync::atomic::Ordering::Relaxed),
     }));
     vutil::write_out(&args, &doc);
 }
